@@ -119,8 +119,11 @@ func coqObs(o Obs) string {
 }
 
 // Project decodes the reply with the generic XML walk (never the library's typed decoders).
-func Project(rep *idp.Reply, st *idp.Storage) Obs {
-	o := Obs{Calls: st.Log()}
+func Project(rep *idp.Reply, st *idp.Storage) Obs { return ProjectCalls(rep, st.Log()) }
+
+// ProjectCalls is Project with an explicit storage call list (per-request logs under concurrency)
+func ProjectCalls(rep *idp.Reply, calls []idp.Call) Obs {
+	o := Obs{Calls: calls}
 	switch rep.Kind {
 	case "saml-body":
 		o.Kind = 2
@@ -198,6 +201,16 @@ func (b *Bench) env(alg string) *idp.Env {
 
 func algValid(a string) bool {
 	return a == idp.RSASHA1 || a == idp.RSASHA256 || a == "http://www.w3.org/2001/04/xmldsig-more#rsa-sha512"
+}
+
+// CoqCase renders one callback execution as a cb_case for Corr/CallbackCorr.v
+func CoqCase(id int, formOK bool, formID string, rec *idp.AuthReq, entity *string, user *idp.User, certOK, signOK bool, obs Obs) string {
+	ent := "None"
+	if entity != nil {
+		ent = "(Some " + coqgen.Bytes(*entity) + ")"
+	}
+	return fmt.Sprintf("{| q_id := %s; q_form_ok := %s; q_form_id := %s; q_rec := %s; q_entity := %s; q_user := %s; q_cert_ok := %s; q_sign_ok := %s; q_obs := %s |}",
+		coqgen.Z(int64(id)), coqgen.Bool(formOK), coqgen.Bytes(formID), coqRec(rec), ent, coqUser(user), coqgen.Bool(certOK), coqgen.Bool(signOK), coqObs(obs))
 }
 
 // Run generates histories and executes every callback in them.
